@@ -27,6 +27,7 @@ def raw_names():
 def values():
     return st.one_of(
         st.sampled_from([None, False, True, "", "v", " ", "a b", 0, 1, -3, 2.5, 1e21, {"html": "h&amp;"}, {"html": ""}, {"html": "<b>"}]),
+        st.sampled_from([{"float": "nan"}, {"float": "inf"}, {"float": "-inf"}, -0.0, 0.0, 10**30, 1e-7]),  # non-finite floats spelled out (strict JSON recipes)
         gen.hot_text(3),
         gen.safe_text(0, 4),
         gen.numbers(),
@@ -65,12 +66,14 @@ def case_strategy():
         st.tuples(st.just("update"), st.lists(pairs(), max_size=2), pairs(2)).map(list),
         st.tuples(st.just("set"), raw_names(), values()).map(list),
     )
-    return st.fixed_dictionaries({"args": st.lists(arg, max_size=5), "kw": pairs(3), "later": st.lists(later, max_size=4), "via": st.sampled_from(["Tag", "div", "span"]), "poison": st.sampled_from([None, None, "key", "value", "update-key", "nonmapping"])})
+    return st.fixed_dictionaries({"args": st.lists(arg, max_size=5), "kw": pairs(3), "later": st.lists(later, max_size=4), "via": st.sampled_from(["Tag", "div", "span"]), "poison": st.sampled_from([None, None, "key", "value", "update-key", "nonmapping"]), "ws_kw": st.sampled_from([None, None, True, False])})
 
 
 def val_obj(v):
     import htmltools as h
 
+    if isinstance(v, dict) and "float" in v:
+        return float(v["float"])
     return h.HTML(v["html"]) if isinstance(v, dict) else v
 
 
@@ -79,6 +82,8 @@ def part_of(v):
         return None
     if v is True:
         return ("plain", "")
+    if isinstance(v, dict) and "float" in v:
+        return ("plain", str(float(v["float"])))
     if isinstance(v, dict):
         return ("html", v["html"])
     if isinstance(v, str):
@@ -175,13 +180,19 @@ def body(case, note):
     seq += kw
     kwr = {r: val_obj(v) for r, v in kw}
     acc, dropped = merge_call(model, seq)
+    # the whitespace flag travels with the keywords of a call that is forwarded as a whole; it is not an attribute
+    fwd = dict(kwr)
+    if case.get("ws_kw") is not None:
+        fwd["_add_ws"] = case["ws_kw"]
     if case["via"] == "Tag":
-        tag = h.Tag("div", *args_real, **kwr)
+        tag = h.Tag("div", *args_real, **fwd)
     else:
-        tag = getattr(h, case["via"])(*args_real, **kwr)
+        tag = getattr(h, case["via"])(*args_real, **fwd)
+    if case.get("ws_kw") is not None:
+        check(tag.add_ws is case["ws_kw"], "_add_ws keyword not honoured")
     check_stored(tag.attrs, model, "constructor")
     # consolidate_attrs
-    attrs, children = h.consolidate_attrs(*args_real, **kwr)
+    attrs, children = h.consolidate_attrs(*args_real, **fwd)
     check(type(attrs) is dict, "consolidate_attrs does not return a plain dict", type(attrs).__name__)
     check_stored(attrs, model, "consolidate_attrs")
     check(len(children) == len(children_real) and all(a is b for a, b in zip(children, children_real)), "consolidate_attrs does not return the non-dict arguments unchanged and in order")
@@ -217,7 +228,8 @@ def body(case, note):
         pos = out.index('"', pos + len(lit)) + 1 if all(p[0] == "plain" for p in model[k]) else out.index('"', pos + len(lit)) + 1
         if not all(p[0] == "plain" for p in model[k]):
             break
-    note(collide and dropped, "later-replaces" if replaced else "", "collision" if collide else "", "children-interleaved" if children_real and any(a[0] == "d" for a in case["args"]) else "", "via:" + case["via"], "after-failed-call" if poison else "")
+    note(collide and dropped, "later-replaces" if replaced else "", "collision" if collide else "", "children-interleaved" if children_real and any(a[0] == "d" for a in case["args"]) else "", "via:" + case["via"], "after-failed-call" if poison else "", "ws-keyword-forwarded" if case.get("ws_kw") is not None else "",
+         "non-finite-number" if any(isinstance(v, dict) and "float" in v for _, v in seq) else "")
 
 
 def selftest():
@@ -233,5 +245,5 @@ RULE = (
 )
 
 CLAUSES = [
-    Clause("model", body, strategy=case_strategy, quick=1200, thorough=20000, shards_quick=4, required=("later-replaces", "collision", "children-interleaved", "after-failed-call"), rule="see RULE"),
+    Clause("model", body, strategy=case_strategy, quick=1200, thorough=20000, shards_quick=4, required=("later-replaces", "collision", "children-interleaved", "after-failed-call", "ws-keyword-forwarded", "non-finite-number"), rule="see RULE"),
 ]
